@@ -330,6 +330,10 @@ def run(ctx):
         c04e(ctx, tu)
         c04g(ctx, tu)
         C15.c15c(ctx, tu)    # C04.h: an expectation is marked `reported` only by a report that really lists it
+        from rules import protocol
+        # the count the end-of-life decision and text use is the number of HANDLED calls: a call that ends in a
+        # fatal report must not have been counted
+        protocol.report(ctx, tu, lambda r: r in ("C01.b", "C05.d.2", "C03.d"))
         c04h(ctx, tu)
         units.append({"unit": tu.name, "functions": len(tu.fns)})
     ctx.extra["units"] = units
